@@ -38,12 +38,28 @@ def short_key(k):
     return hashlib.sha256(k.encode()).hexdigest()[:16]
 
 
-def select_entries(prop, res):
+def select_entries(prop, res, with_premises=True):
+    """The entry points the property names, followed by its premises: the public operations those entry points call
+    directly (marked `premise_of`).  The named entry points are analysed with the callee's code inlined or — for the
+    array primitives — against the array contract; the callee's own clauses are what those steps rest on."""
     spec = properties.PROPS[prop]
     sel = []
     for e in res["entries"]:
         if any(pat in e["entry"] for pat in spec["entries"]):
             sel.append(e)
+    if not with_premises or spec.get("premises") is False:
+        return sel
+    have = {e["entry"] for e in sel}
+    wanted = {}
+    for e in sel:
+        for d in e.get("deps", []):
+            wanted.setdefault(d, e["entry"])
+    skip = spec.get("premises_skip", ())
+    for e in res["entries"]:
+        if e["fn"] in wanted and e["entry"] not in have and not any(pat in e["entry"] for pat in skip):
+            e2 = dict(e)
+            e2["premise_of"] = wanted[e["fn"]]
+            sel.append(e2)
     return sel
 
 
@@ -119,10 +135,17 @@ def decide(prop, tier, res, t0, extra=None):
     failed = [o for o in obligations if o["status"] == "failed"]
     viol_keys = {}
     known_hit = {}
+    premise_entries = {e["entry"] for e in sel if e.get("premise_of")}
+    known_any = {}
+    for (p_, k_), txt in known.items():
+        known_any.setdefault(k_, txt)
     for o in failed:
         k = ob_key(o)
         if (prop, k) in known:
             known_hit[k] = known[(prop, k)]
+        elif o.get("entry") in premise_entries and k in known_any:
+            # a listed finding inside an operation this property only relies on: the same finding, not a new one
+            known_hit[k] = known_any[k]
         else:
             viol_keys.setdefault(k, o)
     for v in rule_viol:
@@ -247,7 +270,12 @@ def write_evidence(prop, tier, res, sel, obligations, rule_inst, rule_viol, know
         "trusted_base": trusted,
         "explanation": "static analysis over the type-checked program exported by the ohx rustc driver: " + spec["clause"],
         "clause_decided": spec["clause"],
-        "entry_points_analysed": [e["entry"] for e in sel],
+        "entry_points_analysed": [e["entry"] for e in sel if not e.get("premise_of")],
+        "premises_analysed": [{"operation": e["entry"], "called_by": e["premise_of"]} for e in sel if e.get("premise_of")],
+        "premises_rule": "the public operations the property's entry points call directly (through crate-private "
+                         "helpers; trait methods resolved when the crate has one implementation — the Vec backend's "
+                         "array primitives): their own clauses are premises of the property's proof and are part of "
+                         "this check",
         "functions_reached": sorted({o["fn"] for o in obligations}),
         "obligations_by_kind": by_kind,
         "discharge_methods": by_method,
